@@ -67,150 +67,161 @@ def main(v: Verdict) -> None:
         obs.append({"id": f"fn:{n}", "kind": "fn", "name": n, "obs": o})
     # (b) end to end: every identifier in every declaration position, with the flag off and on
     e2e = names if TIER == "thorough" else [n for n in names if len(n) <= 3 or not set(n) <= set("abA1_")]
-    usable = [n for n in e2e if not keyword.iskeyword(n) and n not in ("None", "True", "False")]
-    pub = [n for n in usable if not n.startswith("_")]
-    files = {"__init__.py": ""}
-    files["mcls.py"] = "\n".join(f"class {n}:\n    pass\n" for n in pub)
-    files["mfun.py"] = "\n".join(f"def {n}() -> int:\n    ...\n" for n in pub)
-    files["mmeth.py"] = "class Holder:\n" + "\n".join(f"    def {n}(self) -> int:\n        ...\n" for n in pub)
-    files["mattr.py"] = "class Holder:\n" + "\n".join(f"    {n}: int" for n in pub) + "\n"
-    files["menum.py"] = "from enum import Enum\n\n\nclass Holder(Enum):\n" + "\n".join(f"    {n} = {k}" for k, n in enumerate(pub)) + "\n"
-    # names whose camel form starts with a digit give an illegal identifier (C02's business): keep them in a module of their own
-    pmod = {n: ("mparamd" if stripped_digit(n) else "mparam") for n in usable}
-    for mod in ("mparam", "mparamd"):
-        files[f"{mod}.py"] = "\n".join(f"def pf{k}({n}: int) -> int:\n    ...\n" for k, n in enumerate(usable) if pmod[n] == mod)
-    # two Python names that are rendered alike under conversion, met in one class through an internal superclass whose members are
-    # inlined; and an attribute that shadows a like-named property of the internal superclass
-    inh = []
-    for k, n in enumerate(pub):
-        c = camel.get(n, n)
-        if c != n and c.isidentifier() and not keyword.iskeyword(c):
-            inh.append(f"class _IB{k}:\n    def {n}(self) -> int:\n        ...\n\n\nclass ISub{k}(_IB{k}):\n    def {c}(self) -> str:\n        ...\n")
-            inh.append(f"class _IC{k}:\n    def {c}(self) -> int:\n        ...\n\n\nclass ISubC{k}(_IC{k}):\n    def {n}(self) -> str:\n        ...\n")
-        if "_" in n.strip("_"):
-            inh.append(f"class _IP{k}:\n    @property\n    def {n}(self) -> int:\n        ...\n\n    def other{k}(self) -> int:\n        ...\n\n\n"
-                       f"class ISubP{k}(_IP{k}):\n    {n}: int = 1\n")
-            inh.append(f"class _IM{k}:\n    def {n}(self) -> int:\n        ...\n\n\nclass ISubM{k}(_IM{k}):\n    {n}: int = 1\n")
-    files["minherit.py"] = "\n\n".join(inh) or "X = 1\n"
-    for seg in MODSEGS:
-        files[f"{seg}.py"] = "def inmod() -> int:\n    ...\n"
-    # type variables with convertible names: of the class, of the constructor only, of a method
-    files["mgeneric.py"] = ("from typing import Generic, TypeVar\n\nT_in = TypeVar(\"T_in\")\nU_out = TypeVar(\"U_out\", covariant=True)\nv_x = TypeVar(\"v_x\")\n\n\n"
-                            "class Box(Generic[T_in, U_out]):\n    def __init__(self, item: T_in):\n        self.item = item\n\n    def get(self) -> T_in:\n        ...\n\n"
-                            "    def conv(self, f: v_x) -> U_out:\n        ...\n\n    def put(self, other: T_in) -> T_in:\n        ...\n\n    def tag(self, key: v_x, value: T_in) -> int:\n        ...\n\n\nclass CtorOnly:\n    def __init__(self, x: v_x):\n        self.x = x\n\n\ndef free_fn(a: T_in) -> T_in:\n    ...\n")
-    # packages that receive re-exported declarations: one whose path changes under conversion, handled before one whose path does not
-    files["core/__init__.py"] = ""
-    files["core/_shared.py"] = "def re_fn() -> int:\n    ...\n\n\nclass ReCls:\n    pass\n\n\nclass ReOther:\n    pass\n"
-    files["data_sets/__init__.py"] = f"from {PKG}.core._shared import re_fn\nfrom .sub_part import tool_mod\n"
-    # a module that its grand-parent package re-exports as a whole (the package path changes under conversion)
-    files["data_sets/sub_part/__init__.py"] = ""
-    files["data_sets/sub_part/tool_mod.py"] = "def tool_fn(first_arg: int) -> int:\n    ...\n\n\nclass ToolCls:\n    pass\n"
-    files["data_sets/fill.py"] = "def fill_a() -> int:\n    ...\n"
-    files["plots/__init__.py"] = f"from {PKG}.core._shared import ReCls\n"
-    files["plots/fill.py"] = "def fill_b() -> int:\n    ...\n"
-    files["a_first/__init__.py"] = f"from {PKG}.core._shared import ReOther\n"
-    files["a_first/fill.py"] = "def fill_c() -> int:\n    ...\n"
-    # a class of another library in a private module below a snake_case package: every path segment is converted on its own
-    files["mforeign.py"] = "from c9lib.linear_model._base import Regressor\n\n\ndef fits(r: Regressor) -> Regressor:\n    ...\n"
-    pkg = write_pkg(files, PKG, siblings={"c9lib": {"__init__.py": "", "linear_model/__init__.py": "", "linear_model/_base.py": "class Regressor:\n    pass\n"}})
-    r_off, r_on = run_many([{"src": pkg, "opts": Opts(docstyle="NUMPYDOC", nc=False), "timeout": 600},
-                            {"src": pkg, "opts": Opts(docstyle="NUMPYDOC", nc=True), "timeout": 600}])
-    if r_off.exit != "ok" or r_on.exit != "ok":
-        v.extra["unobservable"] = [{"exit": r.exit, "exc": r.exc, "frame": r.frame, "msg": r.msg} for r in (r_off, r_on)]
-        v.machinery("end-to-end naming runs did not complete (crashes are reported by C01)") if False else None
-    else:
-        s_off, s_on = Stubs(r_off), Stubs(r_on)
-
-        def find(stubs, module, pos, n, k=None):
-            """-> (shown name, annotated) or None"""
-            for rel, f in stubs.files.items():
-                if (f.pymodule or f.package) != f"{PKG}.{module}":
-                    continue
-                if pos in ("class", "function"):
-                    for d in f.members:
-                        if d.pyname == n and d.kind == ("class" if pos == "class" else "fun"):
-                            return d.name, any(a == "PythonName" for a, _ in d.annotations)
-                elif pos in ("method", "attribute", "enum member"):
-                    for d in f.members:
-                        if d.pyname == "Holder":
-                            for m in d.members:
-                                if m.pyname == n:
-                                    return m.name, any(a == "PythonName" for a, _ in m.annotations)
-                elif pos == "parameter":
-                    for d in f.members:
-                        if d.pyname == f"pf{k}" and d.params and len(d.params) == 1:
-                            p = d.params[0]
-                            return p["name"], p["pyname"] != p["name"] or False
-                elif pos == "result":
-                    for d in f.members:
-                        if d.pyname == f"rf{k}" and len(d.results) == 1:
-                            x = d.results[0]
-                            return x["name"], x["pyname"] != x["name"]
-            return None
-
-        import re
-
-        def errored(stubs):
-            mods = set()
-            for rel in stubs.errors:
-                text = stubs.run.stubs[rel]
-                m = re.search(r'@PythonModule\("([^"]+)"\)', text) or re.search(r"^package (\S+)", text, re.M)
-                if m:
-                    mods.add(m.group(1))
-            return mods
-        bad_mods = errored(s_off) | errored(s_on)
-
-        def add(pos, module, n, k=None):
-            if f"{PKG}.{module}" in bad_mods:          # a stub that does not parse is reported by C02, not here
-                v.extra["unobservable_decls"] = v.extra.get("unobservable_decls", 0) + 1
-                return
-            a, b = find(s_off, module, pos, n, k), find(s_on, module, pos, n, k)
-            obs.append({"id": f"{pos}:{n}", "kind": "decl", "obs": {
-                "pos": pos, "py": n, "missingOff": a is None, "missingOn": b is None,
-                "shownOff": a[0] if a else "", "annotatedOff": bool(a[1]) if a else False,
-                "shownOn": b[0] if b else "", "annotatedOn": bool(b[1]) if b else False, "annotationOn": n if (b and b[1]) else ""}})
-
-        for n in pub:
-            add("class", "mcls", n)
-            add("function", "mfun", n)
-            add("method", "mmeth", n)
-            add("attribute", "mattr", n)
-            add("enum member", "menum", n)
-        for k, n in enumerate(usable):
-            add("parameter", pmod[n], n, k)
-        # result names carry no @PythonName annotation in the stub language the generator emits; judged by shown name only
-        # module path segments
+    # the thorough universe is spread over packages of at most 700 names that are analysed side by side (the tool's run time grows
+    # faster than linearly with the size of one package)
+    chunks = [e2e] if TIER == "quick" else [e2e[c:c + 700] for c in range(0, len(e2e), 700)]
+    built = []
+    for ci, e2e in enumerate(chunks):
+        PKGN = PKG if ci == 0 else f"{PKG}c{ci:02d}"
+        usable = [n for n in e2e if not keyword.iskeyword(n) and n not in ("None", "True", "False")]
+        pub = [n for n in usable if not n.startswith("_")]
+        files = {"__init__.py": ""}
+        files["mcls.py"] = "\n".join(f"class {n}:\n    pass\n" for n in pub)
+        files["mfun.py"] = "\n".join(f"def {n}() -> int:\n    ...\n" for n in pub)
+        files["mmeth.py"] = "class Holder:\n" + ("\n".join(f"    def {n}(self) -> int:\n        ...\n" for n in pub) or "    pass\n")
+        files["mattr.py"] = "class Holder:\n" + ("\n".join(f"    {n}: int" for n in pub) or "    pass") + "\n"
+        files["menum.py"] = "from enum import Enum\n\n\nclass Holder(Enum):\n" + ("\n".join(f"    {n} = {k}" for k, n in enumerate(pub)) or "    pass") + "\n"
+        # names whose camel form starts with a digit give an illegal identifier (C02's business): keep them in a module of their own
+        pmod = {n: ("mparamd" if stripped_digit(n) else "mparam") for n in usable}
+        for mod in ("mparam", "mparamd"):
+            files[f"{mod}.py"] = "\n".join(f"def pf{k}({n}: int) -> int:\n    ...\n" for k, n in enumerate(usable) if pmod[n] == mod)
+        # two Python names that are rendered alike under conversion, met in one class through an internal superclass whose members are
+        # inlined; and an attribute that shadows a like-named property of the internal superclass
+        inh = []
+        for k, n in enumerate(pub):
+            c = camel.get(n, n)
+            if c != n and c.isidentifier() and not keyword.iskeyword(c):
+                inh.append(f"class _IB{k}:\n    def {n}(self) -> int:\n        ...\n\n\nclass ISub{k}(_IB{k}):\n    def {c}(self) -> str:\n        ...\n")
+                inh.append(f"class _IC{k}:\n    def {c}(self) -> int:\n        ...\n\n\nclass ISubC{k}(_IC{k}):\n    def {n}(self) -> str:\n        ...\n")
+            if "_" in n.strip("_"):
+                inh.append(f"class _IP{k}:\n    @property\n    def {n}(self) -> int:\n        ...\n\n    def other{k}(self) -> int:\n        ...\n\n\n"
+                           f"class ISubP{k}(_IP{k}):\n    {n}: int = 1\n")
+                inh.append(f"class _IM{k}:\n    def {n}(self) -> int:\n        ...\n\n\nclass ISubM{k}(_IM{k}):\n    {n}: int = 1\n")
+        files["minherit.py"] = "\n\n".join(inh) or "X = 1\n"
         for seg in MODSEGS:
-            off = [f for f in s_off.files.values() if (f.pymodule or f.package) == f"{PKG}.{seg}"]
-            on = [f for f in s_on.files.values() if (f.pymodule or f.package) == f"{PKG}.{seg}"]
-            obs.append({"id": f"module:{seg}", "kind": "decl", "obs": {
-                "pos": "module", "py": f"{PKG}.{seg}", "missingOff": not off, "missingOn": not on,
-                "shownOff": off[0].package if off else "", "annotatedOff": bool(off and off[0].pymodule),
-                "shownOn": on[0].package if on else "", "annotatedOn": bool(on and on[0].pymodule), "annotationOn": on[0].pymodule if on else ""}})
-        for py in ("c9lib.linear_model._base",):      # the placeholder stub of the other library's module
-            off = [f for f in s_off.files.values() if (f.pymodule or f.package) == py]
-            on = [f for f in s_on.files.values() if (f.pymodule or f.package) == py]
-            obs.append({"id": f"module:{py}", "kind": "decl", "obs": {
-                "pos": "module", "py": py, "missingOff": not off, "missingOn": not on,
-                "shownOff": off[0].package if off else "", "annotatedOff": bool(off and off[0].pymodule),
-                "shownOn": on[0].package if on else "", "annotatedOn": bool(on and on[0].pymodule), "annotationOn": on[0].pymodule if on else ""}})
-        # the stubs of re-exported declarations: found by their place in the output tree
-        for seg in RESEGS:
-            pick = lambda st: [f for rel, f in sorted(st.files.items()) if rel.startswith(f"{PKG}/{seg}/") and rel.count("/") == 2]  # noqa: E731
-            off, on = pick(s_off), pick(s_on)
-            for j in range(max(len(off), len(on), 1)):
-                fo, fn = (off[j] if j < len(off) else None), (on[j] if j < len(on) else None)
-                obs.append({"id": f"reexport-package:{seg}:{j}", "kind": "decl", "obs": {
-                    "pos": "module", "py": f"{PKG}.{seg}", "missingOff": fo is None, "missingOn": fn is None,
-                    "shownOff": fo.package if fo else "", "annotatedOff": bool(fo and fo.pymodule),
-                    "shownOn": fn.package if fn else "", "annotatedOn": bool(fn and fn.pymodule), "annotationOn": fn.pymodule if fn else ""}})
-        if s_off.errors or s_on.errors:
-            v.extra["unparsable_stubs"] = {"off": list(s_off.errors.items())[:5], "on": list(s_on.errors.items())[:5]}
-        k_off, k_on = skeleton(s_off), skeleton(s_on)
-        for mod in sorted(set(k_off) | set(k_on)):
-            if mod in k_off and mod in k_on:       # a module whose stub does not parse on one side is C02's business
-                obs.append({"id": f"skeleton:{mod}", "kind": "skel", "obs": {"file": mod, "off": sha(k_off[mod]), "on": sha(k_on[mod])},
-                            "_detail": [k_off[mod][:3000], k_on[mod][:3000]] if k_off[mod] != k_on[mod] else []})
+            files[f"{seg}.py"] = "def inmod() -> int:\n    ...\n"
+        # type variables with convertible names: of the class, of the constructor only, of a method
+        files["mgeneric.py"] = ("from typing import Generic, TypeVar\n\nT_in = TypeVar(\"T_in\")\nU_out = TypeVar(\"U_out\", covariant=True)\nv_x = TypeVar(\"v_x\")\n\n\n"
+                                "class Box(Generic[T_in, U_out]):\n    def __init__(self, item: T_in):\n        self.item = item\n\n    def get(self) -> T_in:\n        ...\n\n"
+                                "    def conv(self, f: v_x) -> U_out:\n        ...\n\n    def put(self, other: T_in) -> T_in:\n        ...\n\n    def tag(self, key: v_x, value: T_in) -> int:\n        ...\n\n\nclass CtorOnly:\n    def __init__(self, x: v_x):\n        self.x = x\n\n\ndef free_fn(a: T_in) -> T_in:\n    ...\n")
+        # packages that receive re-exported declarations: one whose path changes under conversion, handled before one whose path does not
+        files["core/__init__.py"] = ""
+        files["core/_shared.py"] = "def re_fn() -> int:\n    ...\n\n\nclass ReCls:\n    pass\n\n\nclass ReOther:\n    pass\n"
+        files["data_sets/__init__.py"] = f"from {PKGN}.core._shared import re_fn\nfrom .sub_part import tool_mod\n"
+        # a module that its grand-parent package re-exports as a whole (the package path changes under conversion)
+        files["data_sets/sub_part/__init__.py"] = ""
+        files["data_sets/sub_part/tool_mod.py"] = "def tool_fn(first_arg: int) -> int:\n    ...\n\n\nclass ToolCls:\n    pass\n"
+        files["data_sets/fill.py"] = "def fill_a() -> int:\n    ...\n"
+        files["plots/__init__.py"] = f"from {PKGN}.core._shared import ReCls\n"
+        files["plots/fill.py"] = "def fill_b() -> int:\n    ...\n"
+        files["a_first/__init__.py"] = f"from {PKGN}.core._shared import ReOther\n"
+        files["a_first/fill.py"] = "def fill_c() -> int:\n    ...\n"
+        # a class of another library in a private module below a snake_case package: every path segment is converted on its own
+        files["mforeign.py"] = "from c9lib.linear_model._base import Regressor\n\n\ndef fits(r: Regressor) -> Regressor:\n    ...\n"
+        pkg = write_pkg(files, PKGN, siblings={"c9lib": {"__init__.py": "", "linear_model/__init__.py": "", "linear_model/_base.py": "class Regressor:\n    pass\n"}})
+        built.append((PKGN, pkg, pub, usable, pmod))
+    jobs = []
+    for PKGN, pkg, pub, usable, pmod in built:
+        jobs += [{"src": pkg, "opts": Opts(docstyle="NUMPYDOC", nc=False), "timeout": 900}, {"src": pkg, "opts": Opts(docstyle="NUMPYDOC", nc=True), "timeout": 900}]
+    runs = run_many(jobs)
+    for ci, (PKGN, pkg, pub, usable, pmod) in enumerate(built):
+        r_off, r_on = runs[2 * ci], runs[2 * ci + 1]
+        pre = "" if ci == 0 else f"c{ci:02d}:"
+        if r_off.exit != "ok" or r_on.exit != "ok":
+            v.extra.setdefault("unobservable", []).extend({"package": PKGN, "exit": r.exit, "exc": r.exc, "frame": r.frame, "msg": r.msg} for r in (r_off, r_on) if r.exit != "ok")
+        else:
+            s_off, s_on = Stubs(r_off), Stubs(r_on)
+
+            def find(stubs, module, pos, n, k=None):
+                """-> (shown name, annotated) or None"""
+                for rel, f in stubs.files.items():
+                    if (f.pymodule or f.package) != f"{PKGN}.{module}":
+                        continue
+                    if pos in ("class", "function"):
+                        for d in f.members:
+                            if d.pyname == n and d.kind == ("class" if pos == "class" else "fun"):
+                                return d.name, any(a == "PythonName" for a, _ in d.annotations)
+                    elif pos in ("method", "attribute", "enum member"):
+                        for d in f.members:
+                            if d.pyname == "Holder":
+                                for m in d.members:
+                                    if m.pyname == n:
+                                        return m.name, any(a == "PythonName" for a, _ in m.annotations)
+                    elif pos == "parameter":
+                        for d in f.members:
+                            if d.pyname == f"pf{k}" and d.params and len(d.params) == 1:
+                                p = d.params[0]
+                                return p["name"], p["pyname"] != p["name"] or False
+                    elif pos == "result":
+                        for d in f.members:
+                            if d.pyname == f"rf{k}" and len(d.results) == 1:
+                                x = d.results[0]
+                                return x["name"], x["pyname"] != x["name"]
+                return None
+
+            import re
+
+            def errored(stubs):
+                mods = set()
+                for rel in stubs.errors:
+                    text = stubs.run.stubs[rel]
+                    m = re.search(r'@PythonModule\("([^"]+)"\)', text) or re.search(r"^package (\S+)", text, re.M)
+                    if m:
+                        mods.add(m.group(1))
+                return mods
+            bad_mods = errored(s_off) | errored(s_on)
+
+            def add(pos, module, n, k=None):
+                if f"{PKGN}.{module}" in bad_mods:          # a stub that does not parse is reported by C02, not here
+                    v.extra["unobservable_decls"] = v.extra.get("unobservable_decls", 0) + 1
+                    return
+                a, b = find(s_off, module, pos, n, k), find(s_on, module, pos, n, k)
+                obs.append({"id": f"{pos}:{n}", "kind": "decl", "obs": {
+                    "pos": pos, "py": n, "missingOff": a is None, "missingOn": b is None,
+                    "shownOff": a[0] if a else "", "annotatedOff": bool(a[1]) if a else False,
+                    "shownOn": b[0] if b else "", "annotatedOn": bool(b[1]) if b else False, "annotationOn": n if (b and b[1]) else ""}})
+
+            for n in pub:
+                add("class", "mcls", n)
+                add("function", "mfun", n)
+                add("method", "mmeth", n)
+                add("attribute", "mattr", n)
+                add("enum member", "menum", n)
+            for k, n in enumerate(usable):
+                add("parameter", pmod[n], n, k)
+            # result names carry no @PythonName annotation in the stub language the generator emits; judged by shown name only
+            # module path segments
+            for seg in MODSEGS:
+                off = [f for f in s_off.files.values() if (f.pymodule or f.package) == f"{PKGN}.{seg}"]
+                on = [f for f in s_on.files.values() if (f.pymodule or f.package) == f"{PKGN}.{seg}"]
+                obs.append({"id": f"{pre}module:{seg}", "kind": "decl", "obs": {
+                    "pos": "module", "py": f"{PKGN}.{seg}", "missingOff": not off, "missingOn": not on,
+                    "shownOff": off[0].package if off else "", "annotatedOff": bool(off and off[0].pymodule),
+                    "shownOn": on[0].package if on else "", "annotatedOn": bool(on and on[0].pymodule), "annotationOn": on[0].pymodule if on else ""}})
+            for py in ("c9lib.linear_model._base",):      # the placeholder stub of the other library's module
+                off = [f for f in s_off.files.values() if (f.pymodule or f.package) == py]
+                on = [f for f in s_on.files.values() if (f.pymodule or f.package) == py]
+                obs.append({"id": f"{pre}module:{py}", "kind": "decl", "obs": {
+                    "pos": "module", "py": py, "missingOff": not off, "missingOn": not on,
+                    "shownOff": off[0].package if off else "", "annotatedOff": bool(off and off[0].pymodule),
+                    "shownOn": on[0].package if on else "", "annotatedOn": bool(on and on[0].pymodule), "annotationOn": on[0].pymodule if on else ""}})
+            # the stubs of re-exported declarations: found by their place in the output tree
+            for seg in RESEGS:
+                pick = lambda st: [f for rel, f in sorted(st.files.items()) if rel.startswith(f"{PKGN}/{seg}/") and rel.count("/") == 2]  # noqa: E731
+                off, on = pick(s_off), pick(s_on)
+                for j in range(max(len(off), len(on), 1)):
+                    fo, fn = (off[j] if j < len(off) else None), (on[j] if j < len(on) else None)
+                    obs.append({"id": f"{pre}reexport-package:{seg}:{j}", "kind": "decl", "obs": {
+                        "pos": "module", "py": f"{PKGN}.{seg}", "missingOff": fo is None, "missingOn": fn is None,
+                        "shownOff": fo.package if fo else "", "annotatedOff": bool(fo and fo.pymodule),
+                        "shownOn": fn.package if fn else "", "annotatedOn": bool(fn and fn.pymodule), "annotationOn": fn.pymodule if fn else ""}})
+            if s_off.errors or s_on.errors:
+                v.extra["unparsable_stubs"] = {"off": list(s_off.errors.items())[:5], "on": list(s_on.errors.items())[:5]}
+            k_off, k_on = skeleton(s_off), skeleton(s_on)
+            for mod in sorted(set(k_off) | set(k_on)):
+                if mod in k_off and mod in k_on:       # a module whose stub does not parse on one side is C02's business
+                    obs.append({"id": f"{pre}skeleton:{mod}", "kind": "skel", "obs": {"file": mod, "off": sha(k_off[mod]), "on": sha(k_on[mod])},
+                                "_detail": [k_off[mod][:3000], k_on[mod][:3000]] if k_off[mod] != k_on[mod] else []})
     bad = judge(v, "C09_Trace", obs)
     v.add_bad(bad)
     v.samples = obs[:2] + obs[-3:]
